@@ -31,7 +31,8 @@
 EXTENDS Naturals, FiniteSets, Sequences, TLC
 
 CONSTANTS Snaps,        \* ordinary snaps
-          MaxChanges    \* bound on Len(changes)
+          MaxChanges,   \* bound on Len(changes)
+          WithPartial   \* model bound: explore partial progress of in-progress changes (BOOLEAN)
 
 Snapd == "snapd"
 AllSnaps == Snaps \cup {Snapd}
@@ -198,7 +199,7 @@ Progress == \E c \in Live(changes) :
 
 \* partial progress: every task of change c that names snap s becomes ready (its lane is done, or failed and
 \* undone) while the change itself stays in progress (other lanes, or trailing tasks naming no snap)
-PartialProgress == \E c \in Live(changes) : \E s \in changes[c].snaps \ changes[c].done :
+PartialProgress == WithPartial /\ \E c \in Live(changes) : \E s \in changes[c].snaps \ changes[c].done :
               \* (model bound: only where the real change would stay unready -- several snaps, or a refresh
               \*  with its trailing check-rerefresh task; the trace spec accepts it for any change)
               /\ (Cardinality(changes[c].snaps) >= 2 \/ changes[c].kind = "refresh-snap")
